@@ -75,6 +75,12 @@
 (* FuncPrinter with respect to gid/mid) next to a *first* print still      *)
 (* races and may see half-assigned numbering.                              *)
 (*                                                                         *)
+(* With GCachePrefilled = FALSE (cached pointer type of a global nil --     *)
+(* struct literal, which the documentation allows -- or stale and re-      *)
+(* derived by Type()) NoRace fails even for two module printers on a first *)
+(* print: operand printing stores the type while holding no mutex;         *)
+(* FillGlobalCachesUnderLock = TRUE restores it.                           *)
+(*                                                                         *)
 (* Binding to the code: harness/props/c13 runs the real printers under the *)
 (* Go race detector (same kinds, same start states) and maps every report  *)
 (* to a class <<cell, writer step, other party>>; the hook events          *)
